@@ -728,13 +728,14 @@ Lemma new_scope_spec : forall s k c, fresh s ->
   let '(i, s') := new_scope s k c in
   i = next_id s /\ fresh s' /\ next_id s' = S (next_id s) /\
   (forall j, get_scope (scopes s') j = if Nat.eqb j i then (k, c) else get_scope (scopes s) j) /\
-  missing s' = missing s /\ deferred s' = deferred s /\ in_fd s' = in_fd s /\ lineno s' = lineno s.
+  missing s' = missing s /\ deferred s' = deferred s /\ in_fd s' = in_fd s /\ lineno s' = lineno s /\
+  checkers s' = checkers s /\ unused s' = unused s.
 Proof.
   intros s k c Hf. unfold new_scope. cbn. split; auto. split.
   - intros j v Hin. cbn in Hin. cbn. apply in_app_iff in Hin as [Hin|[Hin|[]]].
     + apply Hf in Hin. lia.
     + injection Hin as <- _. lia.
-  - split; auto. split; auto. intro j. apply get_scope_app_new.
+  - split; auto. split; auto 10. intro j. apply get_scope_app_new.
     intros k' v' Hin. apply Hf in Hin. lia.
 Qed.
 
@@ -762,7 +763,8 @@ Qed.
 Definition InitInv (bi : list name) (done : list (list name)) (ids : list nat) (s : st) : Prop :=
   fresh s /\ (forall i, scope_is_class s i = false) /\ allplain s /\ (forall i, rootclosed (scope_dict s i)) /\
   missing s = [] /\ deferred s = [] /\ in_fd s = false /\
-  (forall x, bound s ids x = true <-> In x (bi ++ concat done)) /\ (forall i, In i ids -> i < next_id s).
+  (forall x, bound s ids x = true <-> In x (bi ++ concat done)) /\ (forall i, In i ids -> i < next_id s) /\
+  checkers s = [] /\ unused s = [] /\ (forall i k, dict_get (scope_dict s i) k <> None -> exists n, k = [n]).
 
 Lemma bound_app : forall s a b x, bound s (a ++ b) x = bound s a x || bound s b x.
 Proof. intros. unfold bound. apply existsb_app. Qed.
@@ -776,10 +778,10 @@ Qed.
 Lemma init_step : forall bi done ids s l, InitInv bi done ids s ->
   let '(i, s') := new_scope s KNormal (plain_dict l) in InitInv bi (done ++ [l]) (ids ++ [i]) s'.
 Proof.
-  intros bi done ids s l (Hf & Hc & Hp & Hr & Hm & Hd & Hfd & Hb & Hlt).
+  intros bi done ids s l (Hf & Hc & Hp & Hr & Hm & Hd & Hfd & Hb & Hlt & Hck & Hun & Hks).
   pose proof (new_scope_spec s KNormal (plain_dict l) Hf) as Hn.
   destruct (new_scope s KNormal (plain_dict l)) as [i s'] eqn:E.
-  destruct Hn as (Hi & Hf' & Hnx & Hg & Hm' & Hd' & Hfd' & _).
+  destruct Hn as (Hi & Hf' & Hnx & Hg & Hm' & Hd' & Hfd' & _ & Hck' & Hun').
   assert (Hsd : forall j, scope_dict s' j = if Nat.eqb j i then plain_dict l else scope_dict s j).
   { intro j. unfold scope_dict. rewrite Hg. destruct (Nat.eqb j i); reflexivity. }
   repeat split; try congruence.
@@ -801,6 +803,9 @@ Proof.
       intros j Hj. rewrite Hsd. destruct (Nat.eqb j i) eqn:Eq; auto. apply Nat.eqb_eq in Eq. apply Hlt in Hj. lia.
     + right. unfold bound. cbn. rewrite Hsd, Nat.eqb_refl. apply plain_dict_has in H'. rewrite H'. reflexivity.
   - intros j Hj. apply in_app_iff in Hj as [Hj|[<-|[]]]. apply Hlt in Hj. lia. lia.
+  - intros j k. rewrite Hsd. destruct (Nat.eqb j i). 2: apply Hks.
+    intro H. destruct (dict_get (plain_dict l) k) eqn:E2; [|congruence].
+    apply plain_dict_get in E2 as (_ & n & Hk & _). eauto.
 Qed.
 
 Lemma init_fold : forall bi ns done ids s, InitInv bi done ids s ->
@@ -832,7 +837,8 @@ Qed.
 
 Lemma init_state_rel : forall bi ns p, star_free bi ns = true ->
   let '(stk, s) := init_state bi ns in
-  Rel stk s (module_frame bi ns p) /\ missing s = [].
+  Rel stk s (module_frame bi ns p) /\ missing s = [] /\
+  checkers s = [] /\ unused s = [] /\ (forall i k, dict_get (scope_dict s i) k <> None -> exists n, k = [n]).
 Proof.
   intros bi ns p Hsf. unfold init_state.
   set (s0 := mkSt [(builtins_id, (KNormal, plain_dict bi)); (delayed_id, (KNormal, []))] 2 [] [] [] [] false 0 0).
@@ -847,22 +853,28 @@ Proof.
       destruct (Nat.eqb i delayed_id); cbn; intros r q H; cbn in H; congruence.
     - unfold bound. cbn. rewrite orb_false_r. unfold scope_dict, s0. cbn. rewrite app_nil_r. apply plain_dict_has.
     - unfold bound. cbn. rewrite orb_false_r. unfold scope_dict, s0. cbn. rewrite app_nil_r. apply plain_dict_has.
-    - intros i [<-|[]]. cbn. unfold builtins_id. lia. }
+    - intros i [<-|[]]. cbn. unfold builtins_id. lia.
+    - intros i k. unfold scope_dict, s0. cbn. destruct (Nat.eqb i builtins_id). cbn.
+      intro H. destruct (dict_get (plain_dict bi) k) eqn:E2; [|congruence].
+      apply plain_dict_get in E2 as (_ & n & Hk & _). eauto.
+      destruct (Nat.eqb i delayed_id); cbn; congruence. }
   pose proof (init_fold bi ns [] [builtins_id] s0 H0) as H1.
   destruct (fold_left _ ns ([builtins_id], s0)) as [ids s1].
-  cbn [app] in H1. destruct H1 as (Hf & Hc & Hp & Hr & Hm & Hd & Hfd & Hb & Hlt).
+  cbn [app] in H1. destruct H1 as (Hf & Hc & Hp & Hr & Hm & Hd & Hfd & Hb & Hlt & Hck & Hun & Hks).
   unfold push. cbn [andb].
   rewrite filter_all by (intros x _; rewrite Hc; reflexivity).
   pose proof (new_scope_spec s1 KNormal [] Hf) as Hn.
   destruct (new_scope s1 KNormal []) as [i s2].
-  destruct Hn as (Hi & Hf' & Hnx & Hg & Hm' & Hd' & Hfd' & _).
+  destruct Hn as (Hi & Hf' & Hnx & Hg & Hm' & Hd' & Hfd' & _ & Hck' & Hun').
   assert (Hsd : forall j, scope_dict s2 j = if Nat.eqb j i then [] else scope_dict s1 j).
   { intro j. unfold scope_dict. rewrite Hg. destruct (Nat.eqb j i); reflexivity. }
   assert (Hbd : forall x, bound s2 (ids ++ [i]) x = bound s1 ids x).
   { intro x. rewrite bound_app. unfold bound at 2. cbn. rewrite Hsd, Nat.eqb_refl. cbn. rewrite orb_false_r.
     apply bound_ext. intros j Hj. rewrite Hsd. destruct (Nat.eqb j i) eqn:Eq; auto.
     apply Nat.eqb_eq in Eq. apply Hlt in Hj. lia. }
-  split; [|congruence]. split.
+  split; [|split; [congruence|split; [congruence|split; [congruence|]]]].
+  2:{ intros j k. rewrite Hsd. destruct (Nat.eqb j i). cbn. congruence. apply Hks. }
+  split.
   - repeat split; try congruence.
     + intros j k c. rewrite Hsd. destruct (Nat.eqb j i). cbn. discriminate. apply Hp.
     + intro j. rewrite Hsd. destruct (Nat.eqb j i). intros r q H. cbn in H. congruence. apply Hr.
@@ -897,7 +909,7 @@ Proof.
   assert (Hiff : forall a, In (l, n :: a) (fst (finder bi ns false p)) <->
                            InM l (n :: a) (missing (scan_node false p (fst (init_state bi ns)) (snd (init_state bi ns)))))
     by (intro a; apply finder_missing_In).
-  destruct (init_state bi ns) as [stk s0]. cbn [fst snd] in Hiff. destruct H0 as [HR Hm].
+  destruct (init_state bi ns) as [stk s0]. cbn [fst snd] in Hiff. destruct H0 as (HR & Hm & _).
   assert (HF : Forall SimS p) by (apply Forall_forall; intros x _; apply stmt_sim).
   destruct (block_sim p HF Hp stk s0 _ HR) as (M' & rds & E & HR' & HMC).
   unfold pysem. rewrite E. cbn [snd].
